@@ -37,6 +37,7 @@ RULE = ("One evaluation = one seeded execution of two real Managers (the "
         "stall window was applied or a drop/stop occurred). Distinct: "
         "event-log digests among non-trivial runs.")
 RULE += (" Regime loss_at_selection: the link dies in the turn in which it is being selected (after the peer's KCM was read, before the Manager hears of the connection).")
+RULE += (' Regime stop_bulk: stop() while a backlog drains over a slow path (the graceful close takes several intervals).')
 LEVEL_TEXT = ("Seeded exploration of timings. Let t* be the last time the "
               "Leader received anything on the connection (or the time it "
               "started using it). Silent peer: the Leader has dropped the "
